@@ -51,13 +51,30 @@ def apply_prestate(w, opts, world, items):
     out = out_abs(w, opts)
     token = expected_method_token(opts, world)
     prefix = opts.get("prefix") or ""
+    country = opts.get("country", "us")
+    reports = ["rp2_full_report", "open_positions"] + (["tax_report_%s" % country] if country in ("us", "jp", "ie") else ["rp2_full_report"])
     for i, k in enumerate(items):
-        if k in ("stale_report", "readonly_stale", "bak"):
+        if k in ("symlink_stale", "dangling_symlink_stale"):
+            # a report name that is a symbolic link to a file outside the output directory ("latest" links left by an archiving user)
             os.makedirs(out, exist_ok=True)
-            name = "%s%s_%s.ods" % (prefix, token, ["rp2_full_report", "open_positions", "tax_report_us"][i % 3])
+            archive = os.path.join(w.work, "archive")
+            os.makedirs(archive, exist_ok=True)
+            name = "%s%s_%s.ods" % (prefix, token, reports[i % 3])
+            target = os.path.join(archive, ("old_" if k == "symlink_stale" else "missing_") + name)
+            if k == "symlink_stale":
+                with open(target, "wb") as fh:
+                    fh.write(b"PK\x03\x04 archived report %d" % i)
+            link = os.path.join(out, name)
+            if not os.path.lexists(link):
+                os.symlink(os.path.relpath(target, out), link)
+        elif k in ("stale_report", "readonly_stale", "bak"):
+            os.makedirs(out, exist_ok=True)
+            name = "%s%s_%s.ods" % (prefix, token, reports[i % 3])
             if k == "bak":
                 name += ".bak"
             p = os.path.join(out, name)
+            if os.path.lexists(p):
+                continue
             with open(p, "wb") as fh:
                 fh.write(b"PK\x03\x04 stale report %d" % i)
             if k == "readonly_stale":
